@@ -40,10 +40,11 @@ type header struct {
 
 func (h header) text() string {
 	var sb strings.Builder
+	// names are written as quoted strings (they are not always identifiers; none holds a quote or backslash)
 	if h.Sub {
-		fmt.Fprintf(&sb, "submodule %s { belongs-to owner { prefix o; } ", h.Name)
+		fmt.Fprintf(&sb, "submodule \"%s\" { belongs-to owner { prefix o; } ", h.Name)
 	} else {
-		fmt.Fprintf(&sb, "module %s { namespace \"urn:%s\"; prefix p; ", h.Name, h.Name)
+		fmt.Fprintf(&sb, "module \"%s\" { namespace \"urn:%s\"; prefix p; ", h.Name, h.Name)
 	}
 	for _, r := range h.Revs {
 		fmt.Fprintf(&sb, "revision %q; ", r)
@@ -174,6 +175,8 @@ func runRegistry(c regCase) (obs regObs) {
 			_, _, _, cls := lib.ErrClass(err.Error())
 			if cls == "duplicate-module" {
 				loads = append(loads, "dup")
+			} else if cls == "bad-module-name" {
+				loads = append(loads, "badname")
 			} else {
 				loads = append(loads, "err:"+cls)
 			}
@@ -256,6 +259,9 @@ func universe(thorough bool) []header {
 		{true, "s", []string{r19}},
 		{true, "s", []string{r20, r19}},
 		{true, "m", nil}, // a submodule that shares its name with a module: separate table
+		// D61: names with '@' (refused by add): as a bare name it is the full name of m@2020-01-01
+		{false, "m@2020-01-01", nil},
+		{false, "m@x", []string{r20}},
 	}
 	if thorough {
 		u = append(u, header{false, "m", []string{"2019-12-31"}}, header{true, "m", []string{r20}})
@@ -268,6 +274,7 @@ func stdQueries() []query {
 		{false, "m", ""}, {false, "m", r19}, {false, "m", r20}, {false, "m", "2018-01-01"},
 		{false, "n", ""}, {false, "n", r20}, {false, "s", ""},
 		{true, "s", ""}, {true, "s", r19}, {true, "s", r20}, {true, "m", ""}, {true, "n", ""},
+		{false, "m@2020-01-01", ""}, {false, "m@x", r20},
 	}
 }
 
@@ -367,13 +374,26 @@ func partA(f *lib.Flags, res *lib.Result, d *lib.Driver, distinct *lib.Distinct)
 		}
 	}
 	rec(nil)
+	// corpus: the witness of D61 in both load orders (not dates, and dates), with a second module without
+	// revision whose name is the other's full name
+	for _, w := range [][]header{
+		{{false, "m@2020", nil}, {false, "m", []string{"2020"}}},
+		{{false, "m", []string{"2020"}}, {false, "m@2020", nil}},
+		{{false, "m@2020-01-01", nil}, {false, "m", []string{r20}}, {false, "m@2020-01-01", nil}},
+		{{false, "m", []string{r20}}, {false, "m@2020-01-01", nil}, {true, "m@2020-01-01", nil}},
+		{{false, "m", []string{"2020@x"}}, {false, "m@2020", []string{"x"}}},
+		{{false, "m@2020", []string{"x"}}, {false, "m", []string{"2020@x"}}},
+	} {
+		cases = append(cases, regCase{Loads: w, Queries: append(stdQueries(), query{false, "m@2020", ""}, query{false, "m", "2020"},
+			query{false, "m", "2020@x"}, query{false, "m@2020", "x"})})
+	}
 	// shortest sequences first: the first disagreements recorded are then the smallest witnesses
 	sort.SliceStable(cases, func(i, j int) bool { return len(cases[i].Loads) < len(cases[j].Loads) })
 	nEnum := len(cases)
 	// seeded random: longer sequences over a larger universe (more revisions per module, revision
 	// arguments that are not dates, names that are prefixes of one another)
 	rng := f.Rand(1)
-	names := []string{"m", "mm", "m-x", "n"}
+	names := []string{"m", "mm", "m-x", "n", "m", "n", "m@2020-01-01", "m@", "@", "m@2019-01-01@x", "m.x", "9m", "m x", "m:n"}
 	revPool := []string{r19, r20, "2019-12-31", "2020-01-02", "1999-09-09", "2020-1-01", "20200101", "zzzz"}
 	nRand := 3000
 	if f.Thorough() {
@@ -394,7 +414,7 @@ func partA(f *lib.Flags, res *lib.Result, d *lib.Driver, distinct *lib.Distinct)
 			}
 			c.Loads = append(c.Loads, h)
 		}
-		for _, nm := range names {
+		for _, nm := range names[2:] {
 			c.Queries = append(c.Queries, query{false, nm, ""}, query{true, nm, ""},
 				query{rng.Intn(2) == 0, nm, revPool[rng.Intn(len(revPool))]})
 		}
@@ -1134,8 +1154,8 @@ func main() {
 	res.DistinctNontrivial = na + nb
 	res.Exhaustive = false
 	res.Rule = "part (a): every sequence (with repetition) of at most N headers over the universe {m, m@2019-01-01, m@2020-01-01, " +
-		"m with both, n, n@2020-01-01, submodules s, s@2019-01-01, s with both, submodule m (+2 more in the thorough tier)}, N = registry_max_enumerated_length, " +
-		"each loaded as YANG text, 12 import/include queries each (FindModule and Process()), plus seeded random sequences of 3-8 headers over names {m, mm, m-x, n} " +
+		"m with both, n, n@2020-01-01, submodules s, s@2019-01-01, s with both, submodule m, and two names with '@': m@2020-01-01 without revision, m@x with revision (+2 more in the thorough tier)}, N = registry_max_enumerated_length, " +
+		"each loaded as YANG text, 12 import/include queries each (FindModule and Process()), plus the witnesses of D61 in both orders, plus seeded random sequences of 3-8 headers over names {m, mm, m-x, n, and non-identifiers m@2020-01-01, m@, @, m@2019-01-01@x, m.x, 9m, 'm x', m:n} " +
 		"with 0-3 revisions each, a quarter of them with revision arguments that are not dates; all load orders of one multiset are compared with one another. " +
 		"part (b): real directory trees: every subset of a pool of candidate and near-miss names in one directory (current directory / path entry / below a `...` entry), " +
 		"every subset of {foo.yang, older, newer} in each of current directory, d1, d2 in both path orders, every subset of {exact, dated} in each of r, r/a, r/a/k, r/z under `r/...`, " +
